@@ -79,10 +79,19 @@ def check_tree_pairs(spec, hists, acc):
         for rel, ab in ((0.0, 0.0), (1e-12, 0.0), (0.0, 1e-12)):
             set_tol(rel, ab)
             try:
-                fam = [("itself", o, o), ("copy()", o, o.copy()), ("pickle clone", o, pickle.loads(pickle.dumps(o)))]
+                fam = [("itself", o, o), ("copy()", o, o.copy()), ("pickle clone", o, pickle.loads(pickle.dumps(o))),
+                       ("a + a.zero()", o, o + o.zero()), ("copy() of copy()", o.copy(), o.copy().copy())]
+                if not any(n.get("tr") for _, _, n in S.node_ids(spec)):
+                    fam.append(("a * 1", o, o * 1))
                 im = hg.Factory.fromJson(docs[i])
                 fam.append(("JSON reload vs JSON reload", im, hg.Factory.fromJson(docs[i])))
                 fam.append(("JSON reload vs its copy()", im, im.copy()))
+                fam.append(("toImmutable() vs JSON reload", o.toImmutable(), im))
+                if isinstance(docs[i]["data"], dict) and "entries" in docs[i]["data"]:
+                    # a document whose entries are NaN (an aggregator scaled by / filled with non-finite weights) still
+                    # describes one content: its two reloads are equal, and != stays the negation of ==
+                    nd = dict(docs[i], data=dict(docs[i]["data"], entries="nan"))
+                    fam.append(("two reloads of a document with NaN entries", hg.Factory.fromJson(nd), hg.Factory.fromJson(nd)))
                 for nm, x, y in fam:
                     acc.n("reflexive_checks")
                     if not (x == y) or not (y == x) or (x != y):
@@ -95,6 +104,33 @@ def check_tree_pairs(spec, hists, acc):
         d = C.diff(o.toJson(), docs[i], tol_keys=())
         if d:
             acc.add(core.v_diff(PROP, "pairs", "operand changed by ==/copy/pickle", d, o.toJson(), args))
+
+
+def check_rounding_pair(spec, ha, hb):
+    """Two states whose numbers differ only by rounding (weights 0.1+0.2 against 0.3): under every tolerance ==
+    is symmetric, != is its negation, and a positive tolerance never turns an equal pair into an unequal one."""
+    args = {"spec": spec, "ha": core.show_evs(ha), "hb": core.show_evs(hb)}
+    out = []
+    try:
+        a, b = core.mk(spec, ha), core.mk(spec, hb)
+        prev = None
+        for rel, ab in ((0.0, 0.0), (1e-12, 0.0), (0.0, 1e-12), (1e-6, 1e-6)):
+            set_tol(rel, ab)
+            eq, qe, ne, en = a == b, b == a, a != b, b != a
+            if bool(eq) != bool(qe):
+                out.append(FW.violation(PROP, "rounding", type(a).__name__ + ".__eq__", "asymmetric(rel=%g,abs=%g)" % (rel, ab), args, {}))
+            if bool(ne) == bool(eq) or bool(en) == bool(qe):
+                out.append(FW.violation(PROP, "rounding", type(a).__name__ + ".__ne__", "ne-not-negation(rel=%g,abs=%g)" % (rel, ab),
+                                        args, {"==": bool(eq), "!=": bool(ne)}))
+            if rel == 0.0 and ab == 0.0:
+                prev = bool(eq)
+            elif prev and not eq:
+                out.append(FW.violation(PROP, "rounding", type(a).__name__ + ".__eq__", "tolerance-narrows", args, {}))
+    except Exception as e:
+        out.append(core.v_exc(PROP, "rounding", "== raised", e, args))
+    finally:
+        set_tol(0.0, 0.0)
+    return out
 
 
 def check_neighbour(spec, nspec, label, hist):
@@ -139,6 +175,12 @@ def _tree(task):
         hists = hists[:90]
     acc.n("states", len(hists))
     check_tree_pairs(spec, hists, acc)
+    recs = A.records(spec, "core", cap=3)
+    for r1, r2 in itertools.product(recs, recs):
+        for ha, hb in (([(r1, 0.1), (r1, 0.2)], [(r1, 0.3)]), ([(r1, 0.1), (r2, 0.2)], [(r2, 0.2), (r1, 0.1)]),
+                       ([(r1, 0.1), (r1, 0.2), (r2, 0.3)], [(r2, 0.3), (r1, 0.3)])):
+            acc.add(check_rounding_pair(spec, ha, hb))
+            acc.n("rounding_pairs")
     nbs = NB.valid_neighbours(spec)
     few = [[]] + [h for h in hists if len(h) == 1][:3] + [h for h in hists if len(h) == 2][:2]
     for label, dd, ns in nbs:
@@ -159,7 +201,7 @@ def trees(tier):
     t += S.D3flow()
     if tier != "quick":
         t += S.D3_quick() + S.D3()
-    t += S.DX()
+    t += S.DX() + S.NEST2()
     seen, out = set(), []
     for s in t:
         k = S.key(s)
@@ -176,7 +218,7 @@ def run(tier, seed):
     acc = FW.Acc()
     for a in accs:
         acc.merge(a)
-    ev = acc.c.get("pairs", 0) + acc.c.get("neighbour_checks", 0) + acc.c.get("reflexive_checks", 0)
+    ev = acc.c.get("pairs", 0) + acc.c.get("neighbour_checks", 0) + acc.c.get("reflexive_checks", 0) + acc.c.get("rounding_pairs", 0)
     cov = {
         "states": acc.c.get("states", 0),
         "transitions": ev + acc.c.get("fill_sequences_executed", 0),
@@ -185,7 +227,9 @@ def run(tier, seed):
         "distinct_nontrivial": len(acc.sets.get("pairs", ())) + len(acc.sets.get("neighbours", ())),
         "rule": "per tree: all ordered pairs of the states reachable by <=2 fills (weights {1,0.5}); every structural "
                 "neighbour (one parameter / key / member / child type changed at any depth) in empty and filled states; "
-                "reflexive family (itself, copy, pickle clone, JSON reload) under tolerances (0,0),(1e-12,0),(0,1e-12); "
+                "reflexive family (itself, copy, copy of copy, pickle clone, a+zero, a*1, JSON reload, reloads of a document with NaN "
+                "entries) under tolerances (0,0),(1e-12,0),(0,1e-12); pairs of states that differ only by rounding (weights "
+                "0.1+0.2 vs 0.3) under four tolerances: symmetry, != negation, widening; "
                 "distinct = pairs with different content + (tree, neighbour, state)",
         "exhaustive": True,
         "bounds": {"trees": len(ts)},
@@ -197,6 +241,8 @@ def run(tier, seed):
 
 def replay(driver, args):
     spec = args["spec"]
+    if driver == "rounding":
+        return check_rounding_pair(spec, core.unshow_evs(args["ha"]), core.unshow_evs(args["hb"]))
     if driver == "neighbour":
         return check_neighbour(spec, args["nspec"], args["label"], core.unshow_evs(args["hist"]))
     acc = FW.Acc()
